@@ -690,15 +690,17 @@ class C14(PropertyCheck):
 
     def theorems_for(self, case):
         return {
-            "util_resize": ["C14.resized_eq_centred_window", "C14.resized_getElem", "C14.centred_margins"],
+            "util_resize": ["C14.resized_eq_centred_window", "C14.resized_getElem", "C14.centred_margins",
+                            "C14.crop_is_centred", "C14.embed_is_centred"],
             "util_extract": ["C14.extracted_eq_window"],
-            "mask_chain": ["C14.mask_resized_getElem", "C14.shrink_enlarge_identity",
-                           "C14.coordinate_kept_y", "C14.coordinate_kept_x"],
-            "array_chain": ["C14.array_resized_native", "C14.trim_pad_identity",
-                            "C14.shrink_enlarge_identity", "C14.padding_keeps_triples"],
+            "mask_chain": ["C14.mask_resized_getElem", "C14.mask_shrink_enlarge_identity",
+                           "C14.coordinate_kept_y", "C14.coordinate_kept_x", "C14.pixel_centre_closed_form"],
+            "array_chain": ["C14.array_resized_native", "C14.trim_pad_identity", "C14.trimmed_is_centred_crop",
+                            "C14.array_shrink_enlarge_identity", "C14.padding_keeps_triples"],
             "mask_trim": ["C14.trimmed_array_from_padded"],
-            "apply_mask": ["C14.apply_mask_keeps_triples"],
-            "zoom": ["C14.zoom_contains_unmasked"],
+            "apply_mask": ["C14.apply_mask_keeps_triples", "C14.auto_padding_iff",
+                           "C14.padding_keeps_triples"],
+            "zoom": ["C14.zoom_contains_unmasked", "C14.extracted_eq_window"],
         }.get(case["kind"], ["C14.*"])
 
 
